@@ -365,7 +365,28 @@ def rule_r4(prog, res) -> None:
                 raise AnalysisError(f"C03.R4: cannot type the correlation matrix ({d_}: {unparse(v_)[:60]})")
             else:
                 res.violation("C03.R4", corr, p_.node or corr.node, f"the correlation matrix is {d_} in the covariance instead of scale-free: it is not the covariance divided by the outer product of the standard deviations (values outside [-1, 1], dependent on the units of the data)", key_extra="correlation-not-normalised")
-    if ctxt == "cov_from_samples(self.samples)":
+    # the covariance property: cov_from_samples of exactly the stored samples, rows are samples (rowvar false, explicitly or
+    # by default), the full matrix (kind full, explicitly or by default) — however the arguments are spelled
+    from .common import argval
+
+    def _cov_call_ok() -> bool:
+        r_ = [r.value for r in walk_no_nested(covp.node) if isinstance(r, ast.Return)][0]
+        if not (isinstance(r_, ast.Call) and cv in prog.resolve_call(covp, r_).funcs()):
+            return False
+        first = r_.args[0] if r_.args else argval(prog, covp, r_, cv.param_names()[0])
+        if first is None or unparse(first) != f"{covp.param_names()[0]}.samples":
+            return False
+        rv = argval(prog, covp, r_, "rowvar")
+        if rv is not None and not (isinstance(rv, ast.Constant) and rv.value is False):
+            return False
+        kd = argval(prog, covp, r_, "kind")
+        if kd is not None and not ((isinstance(kd, ast.Constant) and kd.value == "full") or (dotted(kd) or "").endswith(".full")):
+            return False
+        if any(k.arg is None for k in r_.keywords) or any(isinstance(a_, ast.Starred) for a_ in r_.args):
+            return False
+        return True
+
+    if ctxt == "cov_from_samples(self.samples)" or _cov_call_ok():
         res.ok("C03.R4", res.site(covp), "covariance of exactly the stored samples (default rowvar=False: rows are samples)")
     else:
         res.violation("C03.R4", covp, covp.node, f"covariance is {ctxt}", key_extra="covariance-source")
